@@ -272,7 +272,7 @@ func trimControlCharsAndSpaces(s string) string {
 		istart++
 	}
 	iend := len(s) - 1
-	for iend >= 0 {
+	for iend >= istart {
 		if s[iend] > ' ' {
 			break
 		}
